@@ -44,6 +44,8 @@ def endings():
         for k in KINDS_SH + (('FAIL',) if ph == 'assert' else ()):
             out.append((ph, 'main', k))
     out.append(('act', 'nostart', 'OSERR'))
+    # the step act/validate-exe-input (the stdin of the action set up in [setup] fails its validation: with a message / by raising)
+    out += [('setup', 'exeinput', 'MSG'), ('setup', 'exeinput', 'EXC')]
     # double endings: a forward failure followed by a failing [cleanup] instruction
     for base in [('pass',), ('assert-fail',), ('act', 'nostart', 'OSERR')] + [(ph, 'main', k) for ph in ('setup', 'before-assert', 'assert') for k in ('HEr', 'EXC')] + \
             [('setup', 'post', 'VE'), ('assert', 'post', 'HEr'), ('assert', 'main', 'FAIL')]:
@@ -77,6 +79,10 @@ def cases(tier):
         for ending in ('pass', 'fail', 'hard'):
             for mode in (False, True, 'act'):
                 yield ('startgone', how, ending, mode)
+    # the directory for sandboxes is reached through a symbolic link (TMPDIR -> link): the current directory IS the act directory exactly names
+    for mode in (False, True, 'act'):
+        for ending in ('pass', 'fail'):
+            yield ('symlinked-tmp', mode, ending)
     # exactly embedded through its library entry points with an EXPLICIT set of environment variables (os.environ itself / a dict of the caller):
     # what the case does to "its" environment must not reach the mapping the embedder supplied
     for which in ('os.environ', 'own-dict'):
@@ -168,8 +174,8 @@ def expected1(ending):
         return 'HARD_ERROR', True
     ph, step, kind = ending
     ident = {'VE': 'VALIDATION_ERROR', 'HEr': 'HARD_ERROR', 'HEx': 'HARD_ERROR', 'EXC': 'INTERNAL_ERROR',
-             'UNDEF': 'VALIDATION_ERROR', 'FAIL': 'FAIL'}[kind]
-    created = step in ('post', 'main') and ph != 'conf'
+             'UNDEF': 'VALIDATION_ERROR', 'FAIL': 'FAIL', 'MSG': 'HARD_ERROR'}[kind]
+    created = step in ('post', 'main', 'exeinput') and ph != 'conf'
     return ident, created
 
 
@@ -423,9 +429,67 @@ def _embed_env(case) -> Result:
     return res
 
 
+def _symlinked_tmp(case) -> Result:
+    import tempfile
+    _, mode, ending = case
+    res = Result()
+    res.n = 1
+    w = world.get()
+    w.reset()
+    seam = procseam.SEAM
+    seam.reset()
+    seam.script['atc'] = {'out': 'o\n', 'exit': 3}
+    link = str(w.ext / 'tmp-link')
+    os.symlink(str(w.sb), link)
+    tempfile.tempdir = link
+    seen = []
+
+    def hook(rec):
+        if rec['name'] == 'obsact':
+            seen.append((rec['args'][1], rec['args'][2], rec['cwd']))
+
+    seam.on_call = hook
+    lines = ['[setup]', 'run % obsact setup @[EXACTLY_ACT]@', 'cd -rel-tmp .', 'run % obsact tmp @[EXACTLY_TMP]@', '[act]', '% atc', '[assert]',
+             'exit-code == %d' % (3 if ending == 'pass' else 0), '[cleanup]', 'cd -rel-act .', 'run % obsact cleanup @[EXACTLY_ACT]@']
+    text = '\n'.join(lines) + '\n'
+    args = ['--keep'] if mode is True else (['--act'] if mode == 'act' else [])
+    try:
+        o = cli.run_case(text, args=args, mp=stubprog.main_program())
+    finally:
+        tempfile.tempdir = str(w.sb)
+    errs = []
+    if o.exc:
+        errs.append('exception / hang: %s' % o.exc)
+    if len(seen) != 3:
+        errs.append('observers ran %d times, expected 3' % len(seen))
+    for where, named, cwd in seen:
+        if os.path.normpath(named) != os.path.normpath(cwd):
+            errs.append('at %s the current directory is %s but exactly names the directory %s (sandbox root reached through a symbolic link)' % (where, cwd, named))
+    sbs = w.sandboxes()
+    if mode is True:
+        if len(sbs) != 1:
+            errs.append('--keep: sandbox root holds %s' % sbs)
+        elif os.path.realpath(o.out.strip()) != os.path.realpath(os.path.join(str(w.sb), sbs[0])) or not os.path.isdir(os.path.join(o.out.strip(), 'act')):
+            errs.append('--keep: stdout %r is not the kept sandbox %s' % (o.out[:200], sbs[0]))
+    elif sbs:
+        errs.append('sandbox not removed: %s' % sbs)
+    diff = w.process_state_diff()
+    if diff:
+        errs.append('process state of the caller changed: %s' % diff[:3])
+    res.states.add(('symlinked-tmp', mode))
+    res.outcomes[('symlinked-tmp', mode, o.rc)] += 1
+    res.nontrivial += 1
+    res.validated += 0 if errs else 1
+    if errs:
+        res.violation(case, errs, dict(o.brief(), file=text))
+    return res
+
+
 def run(case) -> Result:
     if case[0] == 'unpriv':
         return _unpriv(case)
+    if case[0] == 'symlinked-tmp':
+        return _symlinked_tmp(case)
     if case[0] == 'embed-env':
         return _embed_env(case)
     if case[0] == 'startgone':
